@@ -62,7 +62,7 @@ def doc_cases(rng, n):
     g = U.Gen(rng, max_depth=3)
     out = []
     for k in range(n):
-        root = rng.choice(B.FRAG_ROOTS)
+        root = rng.choice(B.SUITE_C04.roots)
         v = g.root(root)
         st = U.Style(rng)
         if rng.random() < 0.85: st.enum_mode = 'num'
@@ -85,6 +85,72 @@ def doc_cases(rng, n):
     return out
 
 
+def gdoc_cases(rng, suite, n):
+    """generic documents for a suite: valid, truncated, mutated, unknown members, duplicated members"""
+    g = U.Gen(rng)
+    out = []
+    for k in range(n):
+        root = rng.choice(suite.roots)
+        v = B.gen_table(rng, suite, root, 0, g)
+        st = U.Style(rng)
+        if rng.random() < 0.85: st.enum_mode = 'num'
+        txt = B.render_table(suite, root, v, st)
+        fl = rng.choice([0, 0, 1, 2, 3, 4, 5, 7, rng.randrange(32)])
+        fid = rng.choice([0, 1])
+        out.append((root, fl, fid, txt, 'g-valid'))
+        r = rng.random()
+        if r < 0.2:
+            step = 1 if len(txt) < 150 else max(1, len(txt) // 50)
+            for cut in range(0, len(txt), step): out.append((root, fl, fid, txt[:cut], 'g-truncated'))
+        elif r < 0.7:
+            for _ in range(4): out.append((root, fl, fid, U.mutate(rng, txt), 'g-mutated'))
+        elif r < 0.85:
+            inj = rng.choice([b'"zz":1,', b'"zz":{"a":[1,{"b":null}]},', b'zz:"s",', b'"nam_":[],', b'"name888":1,', b'"name888899":1,', b'"a_long_field_name_":1,',
+                              b'"a_long_field_name_xyz":[],', b'"n":1,', b'"i":2,', b'"idx":3,'])
+            out.append((root, fl, fid, b'{' + inj + txt[1:], 'g-unknown'))
+            out.append((root, fl | 1, fid, b'{' + inj + txt[1:], 'g-unknown-skip'))
+        else:
+            # the same member twice
+            toks = txt[1:-1]
+            out.append((root, fl, fid, b'{' + toks + (b',' if toks.strip() and not toks.rstrip().endswith(b',') else b'') + toks + b'}', 'g-duplicated'))
+    return out
+
+
+def b4_hand():
+    out = []
+    add = lambda root, txt, flags=0: out.append((root, flags, 1, txt, 'b4-hand'))
+    for fl in (0, 1, 2, 3, 4):
+        for txt in (b'{}', b'{"b":true}', b'{"b":false}', b'{"b":1}', b'{"b":0}', b'{"b":2}', b'{"b":256}', b'{"b":-1}', b'{"b":tru}', b'{"b":truex}', b'{"b":"true"}',
+                    b'{"vb":[true,false,1,0,7]}', b'{"vb":[true,]}', b'{"vb":[nope]}', b'{"u8":255}', b'{"u8":256}', b'{"u8":-1}', b'{"i8":-128}', b'{"i8":-129}', b'{"i8":127}',
+                    b'{"i8":128}', b'{"i8":-3}', b'{"u16":500}', b'{"u16":65535}', b'{"u16":65536}', b'{"i16":-32768}', b'{"i16":-32769}', b'{"u32":4000000000}',
+                    b'{"u32":4294967295}', b'{"u32":4294967296}', b'{"i64":-1}', b'{"i64":0}', b'{"u64":18446744073709551615}', b'{"u64":-0}', b'{"u64":-1}', b'{"i32":-0}',
+                    b'{"kind":1}', b'{"kind":5}', b'{"kind":9}', b'{"kind":"K5"}', b'{"kind":K5}', b'{"vk":[0,1,5,200]}', b'{"vk":[K1]}', b'{"names":[]}', b'{"names":["a","b\n",""]}',
+                    b'{"names":["a" "b"]}', b'{"names":[1]}', b'{"names":["a",]}', b'{"names":["a\q"]}', b'{"names":["abc', b'{"vu8":[0,255]}', b'{"vu8":[256]}',
+                    b'{"vi16":[-32768,32767,0]}', b'{"vu64":[18446744073709551615,0]}', b'{"vi64":[-9223372036854775808,9223372036854775807]}',
+                    b'{"item":{"name":"n"}}', b'{"item":{}}', b'{"item":{"name":"n","tags":["t","u"],"ok":false,"w":7,"id":1}}', b'{"item":{"name":"n","ok":true}}',
+                    b'{"items":[{"name":"a"},{"name":"b","tags":[]}]}', b'{"items":[{"name":"a"},{}]}', b'{"items":[]}', b'{"items":[{"name":"a"}', b'{"items":{"name":"a"}}',
+                    b'{"sub":{"sub":{"subs":[{"b":true},{}]}}}', b'{"subs":[{"subs":[{"subs":[]}]}]}', b'{"na":1,"nam":2,"name8888":3,"name88889":4}', b'{"nam":1,"na":2}',
+                    b'{"name888":1}', b'{"name888899":1}', b'{"a_long_field_name_x":"s","a_long_field_name_xy":["t"]}', b'{"a_long_field_name_":1}', b'{"a_long_field_name_xyz":1}',
+                    b'{na:1,nam:2,a_long_field_name_x:"q"}', b'{ "na" : 1 , "nam" : 2 }', b'{"na":1,"na":1}', b'{"na":0,"na":0}', b'{"title":"x","title":"y"}',
+                    b'{"names":[],"names":[]}', b'{"item":{"name":"a"},"item":{"name":"b"}}', b'{"vb":[],"vb":[]}', b'{"title":"\u00e9\ud83d\ude00\x41\t"}'):
+            add('Doc', txt, fl)
+        for txt in (b'{"name":"x"}', b'{}', b'{"id":5}', b'{"name":"x","tags":["a","b"],"ok":true,"w":8}', b'{"name":"x","ok":false}', b'{"name":"x","w":7}', b'{"tags":[]}',
+                    b'{"name":"x","name":"y"}', b'{"name":null}', b'{"name":"x","zz":1}'):
+            add('Item', txt, fl)
+    return out
+
+
+def b4_deep(maxlvl):
+    out = []
+    for d in (maxlvl - 2, maxlvl - 1, maxlvl, maxlvl + 1):
+        pre, post = b'{"sub":' * (d - 2), b'}' * (d - 2)
+        for inner in (b'{"title":"plain"}', b'{"title":"esc\n"}', b'{"names":[]}', b'{"names":["p"]}', b'{"names":["e\t"]}', b'{"vb":[]}', b'{"vb":[true]}',
+                      b'{"item":{"name":"x"}}', b'{"item":{"name":"x","tags":[]}}', b'{"item":{"name":"x","tags":["t"]}}', b'{"item":{"name":"x","tags":["t\n"]}}',
+                      b'{"items":[]}', b'{"items":[{"name":"x"}]}', b'{"b":true}'):
+            out.append(('Doc', 0, 1, pre + inner + post, 'b4-deep'))
+    return out
+
+
 def main():
     seed = int(sys.argv[1]) if len(sys.argv) > 1 else lib.mk_seed()
     n = int(sys.argv[2]) if len(sys.argv) > 2 else 400
@@ -93,11 +159,20 @@ def main():
     H = B.build_harness(ctx)
     maxlvl = B.parse_max_levels() or 100
     cases = hand_cases() + deep_cases(maxlvl) + doc_cases(ctx.rng, n)
+    cases += gdoc_cases(ctx.rng, B.SUITE_C04, n // 2)
     mism, stats = B.parser_model_check(ctx, cases, harness=H)
     hist = {}
     for c in cases: hist[c[4]] = hist.get(c[4], 0) + 1
-    print('c04b_selftest: seed %d, %d cases %r' % (seed, len(cases), hist))
+    print('c04b_selftest: seed %d, suite c04: %d cases %r' % (seed, len(cases), hist))
     print('c04b_selftest: stats %r, %.1f s' % (stats, time.time() - t0))
+    H2 = B.SUITE_B4.build_harness(ctx)
+    cases2 = b4_hand() + b4_deep(maxlvl) + gdoc_cases(ctx.rng, B.SUITE_B4, n)
+    mism2, stats2 = B.parser_model_check(ctx, cases2, harness=H2, suite=B.SUITE_B4)
+    hist = {}
+    for c in cases2: hist[c[4]] = hist.get(c[4], 0) + 1
+    print('c04b_selftest: suite b4: %d cases %r' % (len(cases2), hist))
+    print('c04b_selftest: stats %r, %.1f s' % (stats2, time.time() - t0))
+    mism = mism + mism2
     keys = {}
     for m in mism: keys.setdefault(m['key'], []).append(m)
     for k, ms in sorted(keys.items()):
